@@ -154,7 +154,7 @@ def r123_check_game(ctx, chk, rule="C09.1"):
                     r2 = list(rewards)
                     r2[pos] = v
                     judge("reward: value %r at position %d of %d" % (v, pos, n), players, tl, r2, [0])
-                for v in (P1, P2, PR, "player 1", "Player 3", "", "Player", None):
+                for v in (P1, P2, PR, "player 1", "Player 3", "", "Player", None, 1, [P1], (P1,), {P1: 1}):
                     p2 = list(players)
                     p2[pos] = v
                     judge("player: name %r at position %d of %d" % (v, pos, n), p2, tl, rewards, [0])
